@@ -353,7 +353,30 @@ def _check_duplication(out, orig, rng):
                 new_label=new, placed=where)
 
 
+def _bitsets_registry():
+    """bitsets keeps every bitset class ever made in a private registry (used only for unpickling by id), i.e. every
+    Context stays in memory (~20 kB each; a thorough run builds ~10^6 contexts).  check_case forgets the classes it
+    created itself; nothing of the library's behaviour observed here depends on the registry."""
+    try:
+        import bitsets.meta
+        reg = getattr(bitsets.meta.MemberBitsMeta, '_MemberBitsMeta__registry')
+        return reg if isinstance(reg, dict) else None
+    except Exception:      # noqa: BLE001 - memory hygiene only
+        return None
+
+
 def check_case(case):
+    reg = _bitsets_registry()
+    before = set(reg) if reg is not None else None
+    try:
+        return _check_case(case)
+    finally:
+        if reg is not None:
+            for k in [k for k in reg if k not in before]:
+                del reg[k]
+
+
+def _check_case(case):
     out = []
     rng = random.Random(1515)
     orig = View(case['objects'], case['properties'], case['rows'])
